@@ -8,6 +8,7 @@ package logw
 
 import (
 	"fmt"
+	"github.com/tencent/goom/verifsim/simenv"
 
 	mocker "github.com/tencent/goom"
 	"github.com/tencent/goom/verifsim/world"
@@ -30,8 +31,15 @@ var subs = []string{"hist", "stub", "iface"}
 func (W) Gen(prop string, seed uint64, tier string) *world.Plan {
 	si := int(seed % uint64(len(subs)))
 	subProp := "C19"
+	if simenv.RaceBuild {
+		// the race-detector build only adds something where tasks overlap: concurrent stub plans
+		si = 1
+	}
 	if subs[si] == "stub" {
 		subProp = []string{"C04", "C05"}[int(seed/3)%2]
+		if simenv.RaceBuild {
+			subProp = "C05"
+		}
 	}
 	p := world.Get(subs[si]).Gen(subProp, seed, tier)
 	p.Prop = "C19"
@@ -40,6 +48,7 @@ func (W) Gen(prop string, seed uint64, tier string) *world.Plan {
 		p.Knobs = map[string]int{}
 	}
 	p.Knobs["sub"] = si
+	delete(p.Knobs, "logcfg") // this world sets the logging configuration itself
 	return p
 }
 
